@@ -319,7 +319,7 @@ func (c *conn) runStatement(ctx context.Context, st any, q string) (*relation, e
 			}
 			db.endXact(top, true)
 			if h := db.Hooks.OnCommit; h != nil {
-				h(c.st.id, db.commitSeq)
+				h(c.st.id, db.commitSeq, true)
 			}
 			return nil, nil
 		case "rollback":
@@ -455,7 +455,7 @@ func (c *conn) runStatement(ctx context.Context, st any, q string) (*relation, e
 			c.st.cur = nil
 			db.endXact(top, true)
 			if h := db.Hooks.OnCommit; h != nil {
-				h(c.st.id, db.commitSeq)
+				h(c.st.id, db.commitSeq, false)
 			}
 		}
 		return rel, nil
